@@ -91,6 +91,8 @@ var (
 	reInstRes   = regexp.MustCompile(`(?s)define i32 @zzi(\d+)\(i32 %zzp\) \{\n  %(.*?) = add i32 %zzp, \d+\n  ret i32 %(.*?)\n\}`)
 	reParamRef  = regexp.MustCompile(`(?s)define i32 @zzq(\d+)\(i32 %(.*?)\) \{\n  ret i32 %(.*?)\n\}`)
 	reInvokeRes = regexp.MustCompile(`(?s)define i32 @zzv(\d+)\(\) personality [^\n]* \{\n  %(.*?) = invoke i32 @zzcallee\(\)\n\s+to label %zzok unwind label %zzlp\n\nzzok:[^\n]*\n  ret i32 %(.*?)\n\nzzlp:`)
+	reBlockAddr = regexp.MustCompile(`(?m)^@zzba(\d+) = global i8\* blockaddress\(@zzbaf, %(.*)\)$`)
+	reTogether  = regexp.MustCompile(`(?m)^  %(.*) = add i32 %zzp, (\d+)$`)
 	reLabel     = regexp.MustCompile(`(?m)^define void @zzb(\d+)\(\) \{\n  br label %.*\n\n(.*):\s*(?:;.*)?\n`)
 )
 
@@ -352,6 +354,79 @@ func c11positions() []c11pos {
 			},
 			llvm: func(out string, n int) []string {
 				return byIndex(n, defUse(reInvokeRes.FindAllStringSubmatch(out, -1)), 1, 2, decodeIdent)
+			}},
+		{name: "label-blockaddress", kind: "ident",
+			// ALL names of the chunk are labels of ONE function, each the target of a
+			// blockaddress: a label must be found again among labels that look alike.
+			build: func(m *ir.Module, i int, s string) {
+				var f *ir.Func
+				for _, g := range m.Funcs {
+					if g.GlobalName == "zzbaf" {
+						f = g
+					}
+				}
+				if f == nil {
+					f = voidFn(m, "zzbaf")
+					f.NewBlock("zzentry").NewUnreachable()
+				}
+				b := f.NewBlock(s)
+				b.NewUnreachable()
+				m.NewGlobalDef(fmt.Sprintf("zzba%d", i), constant.NewBlockAddress(f, b))
+			},
+			extract: func(m *ir.Module) []string {
+				var o []string
+				for _, g := range m.Globals {
+					ba, ok := g.Init.(*constant.BlockAddress)
+					if !ok {
+						continue
+					}
+					if b, ok := ba.Block.(*ir.Block); ok {
+						o = append(o, b.LocalName)
+					} else {
+						o = append(o, fmt.Sprintf("\x00<%T>", ba.Block))
+					}
+				}
+				return o
+			},
+			llvm: func(out string, n int) []string {
+				return byIndex(n, reBlockAddr.FindAllStringSubmatch(out, -1), 1, 2, decodeIdent)
+			}},
+		{name: "locals-together", kind: "ident",
+			// ALL names of the chunk are results in ONE function (an index of locals that
+			// conflates look-alike names reports a duplicate or resolves the wrong value).
+			build: func(m *ir.Module, i int, s string) {
+				var f *ir.Func
+				for _, g := range m.Funcs {
+					if g.GlobalName == "zzlt" {
+						f = g
+					}
+				}
+				if f == nil {
+					f = m.NewFunc("zzlt", types.Void, ir.NewParam("zzp", types.I32))
+					f.NewBlock("zzentry")
+				}
+				b := f.Blocks[0]
+				b.Term = nil
+				r := b.NewAdd(f.Params[0], constant.NewInt(types.I32, int64(i)))
+				r.SetName(s)
+				b.NewRet(nil)
+			},
+			extract: func(m *ir.Module) []string {
+				var o []string
+				for _, f := range m.Funcs {
+					if f.GlobalName != "zzlt" {
+						continue
+					}
+					for _, in := range f.Blocks[0].Insts {
+						if a, ok := in.(*ir.InstAdd); ok {
+							o = append(o, a.LocalName)
+						}
+					}
+				}
+				return o
+			},
+			llvm: func(out string, n int) []string {
+				return byIndex(n, reTogether.FindAllStringSubmatch(out, -1), 2, 1, decodeIdent)
 			}},
 		{name: "metadata-name", kind: "ident",
 			build: func(m *ir.Module, i int, s string) {
@@ -695,7 +770,7 @@ func c11names(quick bool) (idents []string, withNul []string) {
 func runC11(c *fw.Check) {
 	idents, withNul := c11names(c.Quick())
 	poss := c11positions()
-	c.Rule = fmt.Sprintf("ALL byte strings of length 1-2 over 0x01..0xFF (65280), ALL strings of length 3..%d over a 16-class alphabet {0 9 a - . $ _ space \" \\ 5 C 0x01 0x7F 0x80 0xFF}, escape-like sequences, 20+-digit names and keywords, in EACH of 19 positions (global, local, label, type, comdat and metadata names; referenced globals, callees, instruction results, invoke results and parameters together with a use that must resolve to them; attribute, section, partition, gc, inline-asm and metadata strings; character arrays, the last two also with NUL bytes): built through the API, printed, re-parsed by the library (bytes must come back identically; an ID must not come back as a name or vice versa) and read by llvm-as|llvm-dis whose tokens are decoded by an independent un-escaper; printed tokens of distinct names must be distinct. distinct = (position, byte string).", map[bool]int{true: 4, false: 5}[c.Quick()])
+	c.Rule = fmt.Sprintf("ALL byte strings of length 1-2 over 0x01..0xFF (65280), ALL strings of length 3..%d over a 16-class alphabet {0 9 a - . $ _ space \" \\ 5 C 0x01 0x7F 0x80 0xFF}, escape-like sequences, 20+-digit names and keywords, in EACH of 21 positions (labels also as blockaddress targets and instruction results with all names of a chunk in ONE function) (global, local, label, type, comdat and metadata names; referenced globals, callees, instruction results, invoke results and parameters together with a use that must resolve to them; attribute, section, partition, gc, inline-asm and metadata strings; character arrays, the last two also with NUL bytes): built through the API, printed, re-parsed by the library (bytes must come back identically; an ID must not come back as a name or vice versa) and read by llvm-as|llvm-dis whose tokens are decoded by an independent un-escaper; printed tokens of distinct names must be distinct. distinct = (position, byte string).", map[bool]int{true: 4, false: 5}[c.Quick()])
 	c.Extra["byte_strings"] = len(idents)
 	c.Extra["positions"] = len(poss)
 	const chunk = 4000
